@@ -4,7 +4,8 @@
         getLineByOffset called directly through the hook.
    (json <transport> <fname-hex> <input> <err> <chunks> <state> <stderr-hex> <rep> <wtab>)
         the command run on a JSON stream with one injected fault.
-          transport: (seek [stream]) | (file) | (pipe <read policy> [stream])   stream = --stream
+          transport: (seek [stream]) | (file) | (pipe <read policy> [stream]) | (whole)   stream = --stream;
+                     whole = data module: contents is the whole file ("compile error: " stripped by the harness)
           input: (in (r <count> <hex>) ...)  (concatenation of repeated blocks)
           err: (syn <E> <Eraw>) | eof      E = 1-based offset of the offending byte (independent plain
                encoding/json decoder); Eraw = the offset encoding/json gave the command (differs from E
@@ -154,7 +155,7 @@ Definition run_json (spec : bool) (transport : sexp) (fname c : list N) (err : s
                                else false
                    | None => pos_eof_chk sw ctx c x line col
                    end in
-        let disc := if pipe then pipe_discarded c steps else seek_discarded c eraw in
+        let disc := if pipe then pipe_discarded c steps else if has_atom "whole" tl then 0 else seek_discarded c eraw in
         let lone := count_lone_cr c (Z.to_nat disc) in
         let family :=
           if stream && negb (match etrue, eraw with Some a, Some b => a =? b | _, _ => true end)
@@ -167,7 +168,11 @@ Definition run_json (spec : bool) (transport : sexp) (fname c : list N) (err : s
         else bad [family]
       else
         let '(contents, errline, je) :=
-          if pipe then pipe_report c steps rerr eraw else seek_report c eraw in
+          if pipe then pipe_report c steps rerr eraw
+          else if has_atom "whole" tl then
+            (* data module (module_loader.go LoadJSONWithMeta): the whole file, no window, line base 0 *)
+            (c, 0, match eraw with Some E => JSyntax E | None => JUnexpectedEOF end)
+          else seek_report c eraw in
         let h := gojq_prefix ++ json_error_header sw fname contents errline je in
         let state_ok :=
           match state with
